@@ -398,3 +398,54 @@ def pagination_setter(cls_short, method):
         if "5" in sql.split("FROM")[1]:
             return f"{qc.__name__} q.limit(10).offset(5)[0:3] renders {sql!r}: the slice start 0 did not replace the offset"
     return None
+
+
+def incomplete(cls_short):
+    """C13: incomplete builders must render ''"""
+    from . import Table, Q, MySQLLoadQueryBuilder
+    t = Table("t")
+    cands = []
+    qc = _builder_qc(cls_short)
+    if qc is not None:
+        b = qc._builder
+        cands = [("delete()", b().delete()), ("update(t)", b().update(t)), ("into(t)", b().into(t)),
+                 ("from_(t)", b().from_(t)), ("update(t).where().limit()", b().update(t).where(t.a == 1).limit(5)),
+                 ("update(t).orderby()", b().update(t).orderby(t.a)),
+                 ("into(t).columns()", b().into(t).columns("a")), ("from_(t).where()", b().from_(t).where(t.a == 1))]
+    elif cls_short.endswith("CreateQueryBuilder"):
+        cands = [("create_table", Q.CreateQueryBuilder().create_table("x")), ("columns", Q.CreateQueryBuilder().columns("a"))]
+    elif cls_short.endswith("DropQueryBuilder"):
+        cands = [("if_exists", Q.DropQueryBuilder().if_exists())]
+    elif cls_short.endswith("MySQLLoadQueryBuilder"):
+        cands = [("load", MySQLLoadQueryBuilder().load("f")), ("into", MySQLLoadQueryBuilder().into("t"))]
+    for label, q in cands:
+        try:
+            s = str(q)
+        except Exception:
+            continue
+        if s != "":
+            return f"{cls_short} {label} is incomplete but renders the fragment {s!r}"
+    return None
+
+
+def wellformed(cls_short):
+    """C13: bracket balance and clause order on the universe statements of a builder class"""
+    import re
+    for label, obj in universe():
+        c = type(obj)
+        if (c.__module__ + "." + c.__qualname__).replace("pypika_tortoise.", "") != cls_short:
+            continue
+        try:
+            s = str(obj)
+        except Exception:
+            continue
+        body = re.sub(r"'(?:[^']|'')*'", "''", s)
+        d = 0
+        for ch in body:
+            d += ch == "("
+            d -= ch == ")"
+            if d < 0:
+                return f"{label}: unbalanced brackets in {s!r}"
+        if d != 0:
+            return f"{label}: unbalanced brackets in {s!r}"
+    return None
